@@ -92,7 +92,7 @@ FIXED = [
             v0 = 3
     return (v0,)
 ''', [A, B])),
- ('C01', 'try-else-runs-after-lowered-jump', '19ed88e',
+ ('C01', 'try-else-runs-after-lowered-jump', '71d2772',
   "else clause of a try statement still executed after a return/continue/break lowered inside the try body",
   c01('''def f(a, b, c, xs, o, d):
     v0 = []
@@ -113,8 +113,30 @@ FIXED = [
         pass
     else:
         T('else2', a)
+        def fn3(p3):
+            return p3 + a
+        T('else3', fn3(1))
     return (2,)
 ''', [A, B])),
+ ('C03', 'global-nonlocal-state-after-nouts', 'de9f3ca',
+  "global/nonlocal variable modified in a conditional and not read again in the function was placed after nouts (if c: G = G + 1 -> ('G',), nouts 0)",
+  dict(c01('''def f(a, b, c, xs, o, d):
+    global G1
+    v0 = a
+    if a > 0:
+        G1 = G1 + 1
+        v0 = G1
+    return (v0,)
+''', [A, B]), meta=None)),
+ ('C03', 'get-state-raises-indexerror', '94172ff',
+  "get_state() raised IndexError for a subscript state variable on an empty sequence (ldu did not map IndexError to Undefined)",
+  dict(c01('''def f(a, b, c, xs, o, d):
+    v0 = a
+    if len(xs) > 0:
+        xs[0] = a + 1
+        v0 = 3
+    return (v0,)
+''', [E, A]), meta=None)),
 ]
 
 OPEN = []
